@@ -1,5 +1,6 @@
 import Gene.Spec.Scan
 import Gene.Engine
+import Gene.Getter
 /-! Executable decision procedure for the hypothesis of the refinement theorem (`Gene/Props/RelCheck.lean`
     proves it sound).  Run by the driver on every scenario between the structured rules and the rules the
     model compiled from the rendered text. -/
@@ -73,5 +74,21 @@ def eventOfFields (source : Str) (id : Int) (fields : List (List Str × FieldVal
   { source := source, id := id, get := fun segs => fields.lookup segs }
 
 def fieldsWfB (fields : List (List Str × FieldValue)) : Bool := fields.all (fun p => fvWfB p.2)
+
+mutual
+def gvalWfB : GVal → Bool
+  | .scalar fv => fvWfB fv
+  | .optNone => true
+  | .optSome v => gvalWfB v
+  | .map kvs => kvs.all (fun p => fvWfB p.2)
+  | .struct _ fs => gfieldsWfB fs
+def gfieldsWfB : List (FieldDef × GVal) → Bool
+  | [] => true
+  | (_, v) :: fs => gvalWfB v && gfieldsWfB fs
+end
+
+/-- an event served by a derived getter: its lookups are the model of the macro on the value -/
+def eventOfGVal (source : Str) (id : Int) (v : GVal) : Event :=
+  { source := source, id := id, get := fun segs => gget v segs }
 
 end Gene.Props.Refine
